@@ -578,6 +578,20 @@ class Full(Engine):
                     raise Unsupported("dict(obj) - needs __iter__ generator")
                 else:
                     for c, kv in self.iterate(src, pc):
+                        if isinstance(kv, (str, bytes)) and len(kv) != 2 or isinstance(kv, (dict, SDict)) and not isinstance(kv, SDict) and len(kv) != 2:
+                            # dict() of a sequence whose element is not a pair (e.g. dict(("name", value)) on a CHOICE tuple): ValueError
+                            self.raises.append((z3.And(self._lb(pc), self._lb(c)), ValueError))
+                            continue
+                        if isinstance(kv, SDict) and all(self.pybool(cc) is True and not d_ and isinstance(kk, (str, int)) for cc, kk, _v, d_ in kv.log):
+                            keys_ = list(dict.fromkeys(kk for _c, kk, _v, _d in kv.log))          # iterating a dict yields its keys
+                            if len(keys_) != 2:
+                                self.raises.append((z3.And(self._lb(pc), self._lb(c)), ValueError))
+                                continue
+                            out.log.append((c, keys_[0], keys_[1], False))
+                            continue
+                        if isinstance(kv, (int, float)) or kv is None:
+                            self.raises.append((z3.And(self._lb(pc), self._lb(c)), TypeError))
+                            continue
                         k, v = self.unpack(kv, 2)
                         out.log.append((c, k, v, False))
             for k, v in kwargs.items():
